@@ -94,17 +94,17 @@ Qed.
 (* closed decimals in a goal become quotients of integer literals *)
 Ltac dec_norm :=
   repeat match goal with
-  | |- context [dec2R ?d] =>
-      let n := eval vm_compute in (dnum d) in
-      let dd := eval vm_compute in (dden d) in
-      change (dec2R d) with (IZR n / IZR dd)
+  | |- context [dec2R (D ?m ?e)] =>
+      let n := eval vm_compute in (dnum (D m e)) in
+      let dd := eval vm_compute in (dden (D m e)) in
+      change (dec2R (D m e)) with (IZR n / IZR dd)
   end.
 Ltac dec_norm_in H :=
   repeat match type of H with
-  | context [dec2R ?d] =>
-      let n := eval vm_compute in (dnum d) in
-      let dd := eval vm_compute in (dden d) in
-      change (dec2R d) with (IZR n / IZR dd) in H
+  | context [dec2R (D ?m ?e)] =>
+      let n := eval vm_compute in (dnum (D m e)) in
+      let dd := eval vm_compute in (dden (D m e)) in
+      change (dec2R (D m e)) with (IZR n / IZR dd) in H
   end.
 
 Lemma one_R : one Rops = 1.
